@@ -81,7 +81,8 @@ add("C12",
     "state no AGE_UPDATE message is pending and no EXIT_NOTIFICATION anywhere (clean exit, so the next call starts clean); the "
     "island ages sum to at least n*(generational_age + num_steps); every reported or in-flight age is a lower bound of the "
     "sender's age; from EVERY reachable state some continuation lets every rank return (lexicographic measure, no trap). "
-    "PARTIAL: termination under EVERY fair schedule that satisfies the pacing premise is not proved. Tie: the real "
+    "Once rank 0 has left its loop every round-robin continuation completes within Phi(state) rounds (potential argument over "
+    "all steps of all ranks). PARTIAL: that rank 0 leaves the loop under every fair, paced schedule is not proved. Tie: the real "
     "ParallelArchipelago (real Island, hall of fame, migration, closing collectives) runs on a deterministic stand-in for mpi4py "
     "(tools/vendor/mpi4py: threads + choice-driven scheduler, buffered isend); the call sequence of every non-blocking call is "
     "replayed through the model (same calls in the same order, same final ages, empty mailboxes); oracle on the real run: no "
